@@ -241,7 +241,26 @@ def run(ctx: Any, prog: Program) -> None:
         names &= local_vars
         ctx.check('C10.B9', bool(names), bsp, n, f'`{U(n)}` fixes the output separator without looking at the lump (it depends only on {sorted({U(x) for x in ast.walk(n.value) if isinstance(x, ast.Attribute)}) or "constants"}): '
                   'a map whose version suggests one separator but whose outputs use the other is rewritten with the wrong one, and outputs containing commas stop parsing', func='BSP._lmp_read_ents', text='separator observed from data')
-    ok = any(isinstance(c, ast.Call) and dotted(c.func) == 'self.write_ent_data' and len(c.args) >= 2 and dotted(c.args[1]) == 'self.out_comma_sep' for c in ast.walk(ms['_lmp_write_ents']))
+    we9 = ms['_lmp_write_ents']
+    calls9 = [c for c in ast.walk(we9) if isinstance(c, ast.Call) and dotted(c.func) == 'self.write_ent_data' and len(c.args) >= 2]
+    defs9: Dict[str, List[ast.AST]] = {}
+    for a_ in ast.walk(we9):
+        if isinstance(a_, ast.Assign):
+            for t_ in a_.targets:
+                if isinstance(t_, ast.Name):
+                    defs9.setdefault(t_.id, []).append(a_.value)
+    ok = False
+    for c9 in calls9:
+        a9 = c9.args[1]
+        alts9 = defs9.get(a9.id, []) if isinstance(a9, ast.Name) else [a9]
+        if alts9 and all(dotted(x) == 'self.out_comma_sep' for x in alts9):
+            ok = True
+        guessed = [x for x in alts9 if dotted(x) != 'self.out_comma_sep' and any(isinstance(y, ast.Attribute) and y.attr in ('version', 'game_ver', 'is_vitamin') for y in ast.walk(x))]
+        if guessed:
+            ok = True            # decided: a violation, not an unknown shape
+            ctx.check('C10.B9', False, bsp, guessed[0], f'_lmp_write_ents passes `{U(guessed[0])[:60]}` as the output separator on some path: a separator guessed from the header version is forced onto every output '
+                      '(write_ent_data overrides Output.comma_sep), so outputs added with the other separator - whose parameters may contain commas - are rewritten and no longer parse as outputs', func='BSP._lmp_write_ents',
+                      text='separator passed to writer')
     ctx.shape('C10.B9', ok, bsp, ms['_lmp_write_ents'], 'the writer passes the recorded separator on', func='BSP._lmp_write_ents', text='separator passed to writer')
     # ---- B4 --------------------------------------------------------------------------------------------
     rd = ms['read']
@@ -701,6 +720,7 @@ def run(ctx: Any, prog: Program) -> None:
 
 
 MUTANTS = [
+    {'id': 'ents_separator_guessed_when_unknown', 'file': 'bsp.py', 'find': "        return self.write_ent_data(vmf, self.out_comma_sep, _show_dep=False)", 'replace': "        sep = self.out_comma_sep\n        if sep is None:\n            sep = self.version < 21\n        return self.write_ent_data(vmf, sep, _show_dep=False)", 'expect': 'C10.B9', 'note': 'round 12'},
     {'id': 'empty_lump_offset_zero', 'file': 'bsp.py', 'find': "                    else:\n                        lump_data = lump.data\n                        lump_fourcc = 0\n", 'replace': "                    else:\n                        lump_data = lump.data\n                        lump_fourcc = 0\n                    lump_start = file.tell()\n                    if not lump_data:\n                        lump_start = 0\n", 'extra': [{'file': 'bsp.py', 'find': "                        defer.set_data(lump_name, file.tell(), len(lump_data), lump.version, lump_fourcc)", 'replace': "                        defer.set_data(lump_name, lump_start, len(lump_data), lump.version, lump_fourcc)"}], 'expect': 'C10.B4', 'note': 'round 11: offset 0 for empty lumps trips the L4D2 sniff'},
     {'id': 'face_lookup_closures_memoised_on_self', 'file': 'bsp.py', 'find': "        add_texinfo = find_or_insert(self.texinfo)\n        add_plane = find_or_insert(self.planes)\n", 'replace': "        if getattr(self, '_face_finders', None) is None:\n            self._face_finders = (find_or_insert(self.texinfo), find_or_insert(self.planes))\n        add_texinfo, add_plane = self._face_finders\n", 'expect': 'C10.B11'},
     {'id': 'get_swaps_raw_data_out_before_reading', 'file': 'bsp.py', 'find': "            data = instance.lumps[self.lump].data\n            LOGGER.debug('Load game lump {} ({} bytes)', self.lump, len(data))", 'replace': "            raw = instance.lumps[self.lump]\n            data, raw.data = raw.data, b''\n            LOGGER.debug('Load game lump {} ({} bytes)', self.lump, len(data))", 'expect': 'C10.B6'},
